@@ -178,6 +178,14 @@ let c_bcase = function
         bc_store = c_list c_state store }
   | _ -> fail_sx "bcase"
 
+let c_ccase = function
+  | C ("mkCCase", [md; lower; specs; root; st0; ftab; zsh; line; args; out; err; exits; fns]) ->
+      { cc_md = c_mode md; cc_lower = c_bool lower; cc_specs = c_list c_spec specs; cc_root = c_node root;
+        cc_st0 = c_list c_state st0; cc_ftab = c_list (c_pair c_str (c_opt c_n)) ftab; cc_zsh = c_bool zsh;
+        cc_line = c_str line; cc_args = c_list c_str args; cc_stdout = c_str out; cc_stderr = c_str err;
+        cc_exits = c_list c_nat exits; cc_fns = c_nat fns }
+  | _ -> fail_sx "ccase"
+
 let c_dcase = function
   | C ("mkDCase", [base; ran; err; writer; help]) ->
       { d_base = c_case base;
@@ -303,6 +311,14 @@ let () =
               let c = c_case sx in
               if check_case mask c then ()
               else begin incr bad; Printf.printf "MISMATCH %d %s\n" !i (show_view c) end
+          | C ("mkCCase", _) as sx ->
+              let c = c_ccase sx in
+              if check_ccase c then ()
+              else begin
+                incr bad;
+                let r = run_ccase c in
+                Printf.printf "MISMATCH %d model{stdout=%s stderr=%s}\n" !i (show_str (comp_stdout r)) (show_str (comp_stderr r))
+              end
           | C ("mkBCase", _) as sx ->
               let c = c_bcase sx in
               if check_bcase c then ()
